@@ -90,7 +90,9 @@ Proof.
   rewrite p_lex_eq. destruct (prep_next (pp s) (raw s)) as [[[k len] pp'] raw'] eqn:EP.
   destruct (take_bytes len (src s)) as [tx src']. unfold msr, msr_pre. cbn [raw pp cur].
   destruct (raw s) as [|t r] eqn:ER.
-  - rewrite prep_next_nil in EP. unfold obit at 2. destruct (0 <? openc (pp s))%N; inversion EP; subst; cbn; lia.
+  - rewrite prep_next_nil in EP. destruct (0 <? openc (pp s))%N eqn:O; inversion EP; subst.
+    + change (ebit T_Error) with 1. unfold obit. rewrite O. cbn. lia.
+    + change (ebit T_Eof) with 0. cbn. lia.
   - assert (NE : t :: r <> []) by discriminate.
     pose proof (prep_next_progress _ _ _ _ _ _ EP NE) as LT. cbn [List.length] in *.
     pose proof (ebit_le k). pose proof (obit_le pp'). lia.
@@ -124,6 +126,10 @@ Proof. reflexivity. Qed.
 Lemma msr_p_error s m : msr (p_error s m) = msr s.
 Proof. reflexivity. Qed.
 Lemma msr_p_start_node s k : msr (p_start_node s k) = msr s.
+Proof. reflexivity. Qed.
+Lemma msr_pre_with_bld s b : msr_pre (with_bld s b) = msr_pre s.
+Proof. reflexivity. Qed.
+Lemma msr_pre_p_error s m : msr_pre (p_error s m) = msr_pre s.
 Proof. reflexivity. Qed.
 Lemma cur_with_bld s b : cur (with_bld s b) = cur s.
 Proof. reflexivity. Qed.
@@ -164,7 +170,7 @@ Lemma p_error_and_eat_inv s m s' : p_error_and_eat s m = Some s' ->
   msr s' <= msr_pre s.
 Proof.
   unfold p_error_and_eat. destruct (p_eat _) as [s3|] eqn:E; [|discriminate]. intros H.
-  apply p_finish_node_frame in H. destruct H as (H & _). apply p_eat_msr in E. unfold msr_pre in *. cbn in E. lia.
+  apply p_finish_node_frame in H. destruct H as (H & _). apply p_eat_msr in E. rewrite msr_pre_with_bld, msr_pre_p_error in E. lia.
 Qed.
 
 Lemma p_error_and_recover_inv rec s m s' : p_error_and_recover rec s m = Some s' ->
@@ -177,7 +183,7 @@ Proof.
   - destruct (tk_eqb (cur s) T_Eof); cbn [negb orb].
     + intros H; inversion H; subst. right. auto.
     + destruct (p_eat _) as [s3|] eqn:E; [|discriminate]. intros H. left. split; [reflexivity|].
-      apply p_finish_node_frame in H. destruct H as (H & _). apply p_eat_msr in E. unfold msr_pre in *. cbn in E. lia.
+      apply p_finish_node_frame in H. destruct H as (H & _). apply p_eat_msr in E. rewrite msr_pre_with_bld, msr_pre_p_error in E. lia.
 Qed.
 
 Lemma p_skip_all_le s s' : p_skip_all s = Some s' -> msr s' <= msr s.
